@@ -535,6 +535,13 @@ def rebuildTail (l : Bits) (oldLen : Nat) (new : Bits) : Nat → List Nat → Bi
   | prev, [] => new ++ l.drop (prev + oldLen)
   | prev, p :: ps => new ++ slc l (prev + oldLen) p ++ rebuildTail l oldLen new p ps
 
+/-- The first statement of `_replace` (bitarray_.py: def _replace):
+    `if bytealigned is None: bytealigned = bitstring.options.bytealigned` — an explicit `False` wins over the option. -/
+def resolveAligned (explicit : Option Bool) (optionBytealigned : Bool) : Bool :=
+  match explicit with
+  | some b => b
+  | none => optionBytealigned
+
 def _replace (l old new : Bits) (s e : Nat) (count : Int) (aligned : Bool) : Nat × Bits :=
   let sp := collect old.length count (occ l old s e aligned) []
   match sp with
@@ -802,6 +809,11 @@ def parseOp (s : String) : Option Op :=
   | ["replace", o, n, s, e, c, al] =>
     do some (.replace (← parseOperand o) (← parseOperand n) (← optIntOfStr? s) (← optIntOfStr? e)
               (← optIntOfStr? c) (← parseBool al))
+  | ["replace", o, n, s, e, c, ba, opt] =>
+    -- explicit `bytealigned` argument (N = None) and the module option `bitstring.options.bytealigned`
+    let explicit : Option (Option Bool) := if ba = "N" then some none else (parseBool ba).map some
+    do some (.replace (← parseOperand o) (← parseOperand n) (← optIntOfStr? s) (← optIntOfStr? e)
+              (← optIntOfStr? c) (Alg.resolveAligned (← explicit) (← parseBool opt)))
   | ["reverse", s, e] => do some (.reverse (← optIntOfStr? s) (← optIntOfStr? e))
   | ["rol", k, s, e] => do some (.rol (← k.toInt?) (← optIntOfStr? s) (← optIntOfStr? e))
   | ["ror", k, s, e] => do some (.ror (← k.toInt?) (← optIntOfStr? s) (← optIntOfStr? e))
